@@ -406,6 +406,9 @@ fn dump_tables() {
         if let Some(c) = char::from_u32(cp) {
             if let Some(m) = unicode_bidi::HardcodedBidiData.bidi_matched_opening_bracket(c) {
                 writeln!(w, "B {:x} {:x} {}", cp, m.opening as u32, m.is_open as u8).unwrap();
+                // the pairing logic relies on every bracket having class ON (both public accessors)
+                use unicode_bidi::BidiDataSource;
+                writeln!(w, "BC {:x} {} {}", cp, class_name(unicode_bidi::bidi_class(c)), class_name(unicode_bidi::HardcodedBidiData.bidi_class(c))).unwrap();
             }
         }
     }
